@@ -40,15 +40,62 @@ Oracle clauses (signature prefix)
                                          for input - at the moment the client call gave up: a transfer that was still
                                          moving then was merely slow and is cut by the close() that follows -> INCONCLUSIVE;
                                          the same guard holds for .../request-incomplete-on-wire after a time-out)
-  handover/response/<differs/..|missing>, handover/request/send-failed
+  handover/response/<differs/..|missing>, handover/request/send-failed[/frame-rejected]   (send_octets returned False on a
+                                         live connection; /frame-rejected when the server's side answered with an FRMR PDU)
   <proto>/unexpected-delivery/<how>      an application call nobody asked for
   escape/<proto>/<op>/<exception@where>  a client call raised something else than the documented SnepError
   stuck/<proto>/<op>/server-thread-died/<exception@where>   only with a recorded exception in a server thread
   <proto>/<kind>/never-delivered/client-call-deadlocked   the client call waits without time-out, the link is quiescent,
                                          the message (within every limit) never reached the peer application
-  .../connection-never-answered          suffix of the request-complete-on-wire and client-call-deadlocked signatures
-                                         when the message was the first of its connection and the server side never
-                                         sent an I/RR/RNR PDU on it (lost at connection set-up; findings-proposed F2)
+  .../connection-never-answered          suffix of the request-complete-on-wire, client-call-deadlocked and send-failed
+                                         signatures when the message was the first of its connection and the server side
+                                         never sent an I/RR/RNR PDU on it (lost at connection set-up; findings-proposed F2:
+                                         the first I PDU is dropped by the listening socket - a second fragment that arrives
+                                         after the accepted socket was inserted is then out of sequence and frame-rejected)
+
+  snep/<kind>/request-not-given-to-application   the complete request reached process_snep_request and was answered, but
+                                         process_put_request / process_get_request (the application boundary) was never
+                                         called with it (a raw-layer match alone no longer counts as delivered)
+  snep/get/overlong-response/<delivered|delivered-partial>, snep/get/short-response/delivered-partial
+                                         client as receiver: a NON-COMPLIANT server (BadSnepServer, harness code on a third
+                                         service name, its transmission done by the real SnepServer._serve loop) answers a Get
+                                         with a length field above the acceptable length the client announced, or with a
+                                         length field larger than the octets it then sends (the last 1..7 octets, a whole
+                                         fragment or everything missing; afterwards it stays silent).  The client must return
+                                         None or raise SnepError - octets are "delivered in part".  Whether the client tells
+                                         the server (Reject request) is not demanded.
+
+Error response for over-length requests: the statement says "refused with the protocol's error response".  SNEP 1.0 (from
+memory, the text is not available offline) defines Reject (FFh) for "unable to receive the remaining fragments" - i.e. as
+the counterpart of Continue after the first fragment of a FRAGMENTED request - and Excess Data (C1h) for a Get whose answer
+exceeds the acceptable length; for an over-length request that fits one fragment no code is singled out.  So the oracle
+demands Excess Data exactly where the specification is unambiguous (answer longer than the client's acceptable length) and
+any error-class response code (>= C0h) for over-length requests; nfcpy answers FFh in both request cases.
+
+Lagging receiver (LagSocket): every socket the servers under test serve and, where asked, the client's socket sit behind a
+pass-through proxy (public socket API only).  In the lagging-receiver class (gen_lag; RW 2..15, MIU 128, one message of
+17+RW..20+RW fragments per connection, four directions: put request / handover request towards a lagging server, get
+response / handover select towards a lagging client) the receiving application's recv() is held until the wire has gone idle
+(two consecutive SYMM frames: the sender has nothing it may send), then as many recv() calls pass as I PDUs were outstanding,
+then it is held again: the sender runs into a full window again and again, also while N(S) wraps.  What was outstanding at
+each release is read from the wire (I PDUs towards that socket minus recv() calls that returned) and counted
+(window_exhausted_before_recv = released with >= RW outstanding).  Oracles unchanged (octet-identical, exactly once); a
+hold ends after LAG_CAP real seconds at the latest and decides nothing.
+
+Records APIs: RECORDS_SHARE of the operations go through put_records / get_records / send_records / recv_records with the
+record list the API's own decoder makes of the message (only where that round-trips, checked per message); the result is
+compared as enc(records).  Size 0 is forced into every link (put request, get request, get response; half of them through
+the records APIs = the empty record list).  Two API conventions are accepted and counted, not judged: get_records([])
+stands for "no request message" and arrives as one empty record (D0 00 00; 0 octets would be accepted as well), and
+get_records() returns None for a message shorter than 3 octets - then the octets-level call underneath (same client
+object, observed) tells the empty message from a failed call.  recv_records() raising TypeError from its log line after
+recv_octets() returned None (time-out) is handled as "nothing received".
+
+Complete stack: besides links with random configuration every shard runs links aimed at the NFC-DEP frame boundaries
+(gen_depaim): MIUs large enough that one LLCP I PDU needs a chain of 1..6(7) NFC-DEP frames, I PDU lengths k*F+d (F = payload
+of one NFC-DEP frame for LRi/LRt 0..3, d = -2..+2), one message per direction with k >= 5 so that the packet number passes
+3 -> 0 inside a chain whatever it started with.  Chains and PNI wraps are counted from the radio frames per direction
+(radio_dep_chain_pni_wrap_i2t / _t2i, required), verified transfers per protocol (fullstack_*_checked, required).
 
 Record boundaries: handover has no length framing - the receiver appends fragments until what it has collected decodes as a
 complete NDEF message - so the generator aims RECORD boundaries (not only message sizes) at the sender's fragment
@@ -57,10 +104,15 @@ unchanged octet-equality / exactly-once clauses at the application boundary; wha
 message (record_offsets) and counted as record_boundary_at_fragment_boundary/{request,select,snep_put,snep_get_response}.
 
 Quiescence ("never" instead of "not yet", no clock involved): the link is alive, the wire carried only SYMM for
-SETTLE_SYMM consecutive frames twice in a row with no other frame in between, and at both looks every thread that
-is inside nfc/snep/server.py or nfc/handover/server.py was parked in threading.Condition.wait (waiting for the LLC):
-a parked serving thread can only be woken by new input, so a request that has crossed completely and is not in the
-book by then will never be delivered.  The thread look can only withhold a verdict (-> INCONCLUSIVE), never make one.
+SETTLE_SYMM consecutive frames twice in a row with no other frame in between, and at both looks at least one thread
+is inside nfc/snep/server.py or nfc/handover/server.py and every such thread was parked in an untimed
+threading.Condition.wait called from nfc code that nobody has notified yet (vf.core.watch.classify: a waiter whose lock
+was already released is about to run), none of them made progress between the looks (vf.core.watch.thread_key) and the
+heartbeat thread of this process (vf.core.watch.Heartbeat) was scheduled in between: a parked serving thread can only
+be woken by new input, so a request that has crossed completely and is not in the book by then will never be
+delivered.  The thread look can only withhold a verdict (-> INCONCLUSIVE), never make one; no server thread found at
+all withholds it as well.  Application calls nobody asked for (late duplicates) are looked for after every batch in
+which no client call is stuck; a late delivery of a message whose operation ended INCONCLUSIVE is not one of them.
 
 Blocked calls: a client thread that is still inside a call although the wire has been idle for longer than any
 time-out is INCONCLUSIVE (stack + socket states in the reason) unless (1) the same connection already has a violation
@@ -106,8 +158,15 @@ RULE = ("a case is one transfer (SNEP put, SNEP get, handover request+select) ex
         "and Hc records) of controlled sizes; 2-record messages size the Hr/Hs record itself through the length of the "
         "carrier data reference.  Distinct = (protocol, kind, size(s), connection MIUs, "
         "role, aggregation flags, window sizes, limit relation); non-trivial = both ends of the transfer reached the "
-        "comparison of the octets at the receiving application.  Part (b) repeats the scenarios (one connection at "
-        "a time) over the complete stack with NFC-DEP LRi/LRt 0..3, bit rate selection 0..2 and active/passive mode")
+        "comparison of the octets at the receiving application.  Every shard additionally runs the lagging-receiver class "
+        "(one link, receive window 2..15 rotating over shards and seeds, MIU 128: single messages of 17+RW..20+RW fragments "
+        "towards a receiver whose recv() is held until the sender's window is exhausted and the wire idle; put request, get "
+        "response, handover request, handover select); 5 % of the connections are one Get towards a non-compliant server "
+        "(length field above the client's acceptable length, or above the octets sent); 20 % of the operations use the "
+        "records APIs; every link carries a put request, a get request and a get response of 0 octets.  Part (b) repeats the "
+        "scenarios (one connection at a time) over the complete stack with NFC-DEP LRi/LRt 0..3, bit rate selection 0..2 and "
+        "active/passive mode, plus links whose I PDU lengths are aimed at k*F-2..k*F+2 (F = NFC-DEP frame payload of the "
+        "direction, k = 1..6) with MIUs of 1600..2175")
 ASSUMPTIONS = [
     "vf.sim.llcpair.ThreadedPair delivers every LLCP frame unchanged and in order (it replaces NFC-DEP and the radio)",
     "ndeflib encodes the generated records canonically: encode(decode(octets)) == octets is verified for every generated message, so records handed to/returned by the application hooks stand for exactly those octets",
@@ -115,13 +174,24 @@ ASSUMPTIONS = [
     "a client call that gave up (get -> None) by its time-out is a violation only when the quiescent link shows that the request crossed completely and was never delivered, or that the response never crossed completely; a response that did cross completely after the client gave up stays inconclusive",
     "a SNEP Get request whose NDEF message fits the server's max_acceptable_length but whose information field (4 octet acceptable-length + NDEF) does not is outside the verdict (nfcpy refuses it; the property statement does not decide it)",
     "RW=0 and socket MIU < 128 are outside the domain",
+    "records APIs: get_records([]) arriving as one empty record (D0 00 00) or as 0 octets, and get_records() returning None for a response of less than 3 octets while the octets-level call underneath returned exactly the (empty) message, are conventions of the API and accepted (counted); recv_records() raising TypeError in its log line after recv_octets() returned None is treated as 'nothing received'",
+    "client as receiver: the non-compliant SNEP server is harness code (BadSnepServer); the client satisfies 'never delivered in part' by returning None or raising SnepError; a Reject request towards the server is not demanded",
+    "over-length requests: any SNEP error-class response code (>= C0h) is 'the protocol's error response' (SNEP 1.0 singles out Reject only for fragmented requests); Excess Data (C1h) is demanded for a Get answer above the client's acceptable length",
+    "lagging receiver: a hold of recv() ends when the wire is idle or after LAG_CAP seconds; how many holds saw a full window is evidence (required > 0), not a verdict",
 ]
 REQUIRED = ["snep_put_checked", "snep_get_checked", "ho_request_checked", "ho_response_checked",
             "snep_put_oversize_refused", "snep_get_excess_refused", "fragmented_requests", "fragmented_responses",
             "wire_I_pdus", "wire_snep_continue", "wire_snep_reject", "followed_boundary_ops",
             "followed_get_response_exactly_k_miu", "seqwrap_transfers", "seqwrap_long_connections",
             "record_boundary_at_fragment_boundary/request", "record_boundary_at_fragment_boundary/select",
-            "record_boundary_at_fragment_boundary/snep_put", "record_boundary_at_fragment_boundary/snep_get_response"]
+            "record_boundary_at_fragment_boundary/snep_put", "record_boundary_at_fragment_boundary/snep_get_response",
+            # lagging receiver: recv() calls released with a full receive window on the wire / transfers verified that way
+            "window_exhausted_before_recv", "lagging_transfers_checked",
+            # client as receiver of a non-compliant server's response
+            "client_overlong_response_refused", "client_short_response_refused",
+            # records APIs, empty record list, the empty NDEF message
+            "api_records_checked/snep_put", "api_records_checked/snep_get", "api_records_checked/ho_response",
+            "records_api_empty_list_checked", "zero_size_checked"]
 
 CALL_TIMEOUT = 3.0          # timeout argument given to put/get/recv_octets (nfcpy waits on it with real time)
 SETTLE_SYMM = 4             # consecutive SYMM frames that count as "wire idle"
@@ -129,8 +199,15 @@ QUIESCE_ROUNDS = 12         # looks at wire + server threads before "not quiesce
 CHAIN_SHARE = 0.4           # share of SNEP connections generated as boundary chains
 RB_HO_SHARE = 0.45          # share of handover dialogues with record boundaries aimed at the fragment boundaries
 RB_SNEP_SHARE = 0.05        # share of all connections: SNEP connections with such multi-record messages
+BAD_SHARE = 0.05            # share of all connections: one Get towards the non-compliant server
 
-SVC_NAMES = ["urn:nfc:sn:snep", "urn:nfc:xsn:vf.c06:lim"]
+LAG_SYMM = 2                # lagging receiver: consecutive SYMM frames (one per direction) = "the wire has gone idle"
+LAG_CAP = 2.0               # ... real seconds after which a held recv() is released anyway (workload control, no verdict)
+LAG_RWS = (2, 3, 4, 5, 6, 7, 8, 9, 10, 11, 12, 13, 14, 15)
+BAD_TIMEOUT = 0.3           # client time-out for responses of the non-compliant server (a short response ends by it)
+RECORDS_SHARE = 0.2         # share of operations that go through the records APIs
+
+SVC_NAMES = ["urn:nfc:sn:snep", "urn:nfc:xsn:vf.c06:lim", "urn:nfc:xsn:vf.c06:bad"]
 SNEP_DEFAULT_MAX = 0x100000
 EDGE = list(range(-7, 8))
 
@@ -156,18 +233,21 @@ def plan(tier, seed):
         descs = [{"kind": "pipe", "links": 64, "batches": 10, "maxk": 6, "slow_limit": 100, "timeout": 3000} for _ in range(n)]
     for d in descs:                # sequence-number wrap class (gen_seqwrap): links per shard = 3 receive windows x rounds
         d["seqwrap_rounds"] = 1 if tier == "quick" else 4
+        # lagging-receiver class (gen_lag): links per shard, connections (of the four directions) per link
+        d["lag_rounds"], d["lag_kinds"] = (1, 2) if tier == "quick" else (6, 4)
     if fullstack_available():      # part (b): complete-stack links (one connection at a time) on top of the sweep
-        for i in range(n):
+        for i in range(n):             # fullstack = links with random configuration, fullstack_depaim = gen_depaim links
             if tier == "quick":
-                if i % 2 == 0:
-                    descs[i].update(fullstack=2, fullstack_batches=3)
+                descs[i].update(fullstack=1, fullstack_batches=3, fullstack_depaim=1)
             else:
-                descs[i].update(fullstack=12, fullstack_batches=4)
+                descs[i].update(fullstack=12, fullstack_batches=4, fullstack_depaim=6, fullstack_lag=2)
     return descs
 
 
 if fullstack_available():
-    REQUIRED = REQUIRED + ["fullstack_links", "radio_dep_chained"]
+    REQUIRED = REQUIRED + ["fullstack_links", "radio_dep_chained", "fullstack_snep_put_checked", "fullstack_snep_get_checked",
+                           "fullstack_ho_response_checked", "fullstack_dep_aimed_checked",
+                           "radio_dep_chain_pni_wrap_i2t", "radio_dep_chain_pni_wrap_t2i"]
     ASSUMPTIONS = ASSUMPTIONS + ["part (b): vf.sim.fakenet delivers every datagram of nfc.clf.udp unchanged and in order (real-time clock mode)"]
 
 
@@ -397,6 +477,9 @@ class Book:
         self.ho_plan = {}
         self.thread_exc = []
         self.tls = threading.local()
+        self.bad_plan = {}          # non-compliant server: request octets -> complete SNEP response octets to send
+        self.bad = []               # ... what it was asked and answered
+        self.link = None
 
     def tick(self):
         with self.lock:
@@ -466,10 +549,40 @@ def classes():
                 return 0xC0
             return list(ndef.message_decoder(r, known_types={}))
 
+        def _serve(self, client_socket):               # the accepted socket behind a pass-through proxy (LagSocket)
+            return super()._serve(LagSocket(client_socket, self.vf_book.link, self.vf_end, "server", self.vf_svc))
+
+    class BadSnepServer(nfc.snep.SnepServer):
+        """NOT under test: a non-compliant SNEP peer (third service name).  Its Get responses carry a length field that
+        exceeds the acceptable length the client announced, or that is larger than the octets it then sends; the real
+        SnepServer._serve loop transmits what this method returns.  What it was asked and what it answered goes to
+        book.bad (not to the entries of the servers under test)."""
+        def __init__(self, llc, book, end, svc, **kw):
+            self.vf_book, self.vf_end, self.vf_svc = book, end, svc
+            super().__init__(llc, **kw)
+
+        def process_snep_request(self, request_data):
+            raw = bytes(request_data)
+            if len(raw) >= 10 and raw[1] == 1:
+                with self.vf_book.lock:
+                    resp = self.vf_book.bad_plan.get(raw[10:])
+                    if resp is not None:
+                        self.vf_book.bad.append({"end": self.vf_end, "octets": raw[10:], "acc": struct.unpack(">L", raw[6:10])[0],
+                                                 "resp": resp})
+                if resp is not None:
+                    return bytearray(resp)
+            return bytearray(_MUTE)         # anything else (the client's Continue after a short response): stay silent
+
+        def _serve(self, client_socket):
+            return super()._serve(MuteSocket(client_socket))
+
     class RecHandoverServer(nfc.handover.HandoverServer):
         def __init__(self, llc, book, end, **kw):
             self.vf_book, self.vf_end = book, end
             super().__init__(llc, **kw)
+
+        def serve(self, socket):
+            return super().serve(LagSocket(socket, self.vf_book.link, self.vf_end, "server", "ho"))
 
         def _process_request_data(self, octets):      # observation of the raw octets only
             self.vf_book.tls.ho_raw = bytes(octets)
@@ -506,8 +619,84 @@ def classes():
             self.send_miu = self.socket.getsockopt(nfc.llcp.SO_SNDMIU)
 
     _CLASSES.update(RecSnepServer=RecSnepServer, RecHandoverServer=RecHandoverServer, TunedSnepClient=TunedSnepClient,
-                    nfc=nfc)
+                    BadSnepServer=BadSnepServer, nfc=nfc)
     return _CLASSES
+
+
+_MUTE = b"vf.c06: the non-compliant server sends nothing"
+
+
+class MuteSocket:
+    """pass-through proxy for the non-compliant server: the marker answer is not sent at all (a peer that announced more
+    octets than it sends simply stays silent afterwards)"""
+
+    def __init__(self, sock):
+        self.__dict__.update(vf_sock=sock)
+
+    def __getattr__(self, name):
+        return getattr(self.vf_sock, name)
+
+    def send(self, data, *a, **kw):
+        if bytes(data) == _MUTE:
+            return True
+        return self.vf_sock.send(data, *a, **kw)
+
+
+class LagSocket:
+    """Pass-through proxy of an nfc.llcp.Socket (public socket API only) that can make its application a LAGGING
+    RECEIVER: while the link carries a lag spec for this side of the connection (link.lag, set by the client thread of
+    a single-connection batch), recv() is held back until the wire has gone idle (LAG_SYMM consecutive SYMM frames,
+    i.e. the sender has nothing it may send: its window is exhausted, or it waits for us); then as many recv() calls as
+    PDUs were outstanding pass, and the next one is held again.  So the sender is driven into a full receive window
+    over and over, also while its sequence numbers wrap.  What was outstanding when a recv() was released is read
+    from the wire (I PDUs towards this socket minus recv() calls that returned) and counted; nothing here decides a
+    verdict, a hold ends after LAG_CAP seconds at the latest."""
+
+    def __init__(self, sock, link, end, side, svc):
+        self.__dict__.update(vf_sock=sock, vf_link=link, vf_end=end, vf_side=side, vf_svc=svc, vf_taken=0, vf_free=0,
+                             vf_key=None, vf_rw=None)
+
+    def __getattr__(self, name):
+        return getattr(self.vf_sock, name)
+
+    def recv(self):
+        spec = self.vf_link.lag
+        if spec is not None and spec["side"] == self.vf_side and spec["end"] == self.vf_end and spec["svc"] == self.vf_svc:
+            self.vf_hold()
+        data = self.vf_sock.recv()
+        if data is not None:
+            self.vf_taken += 1
+        return data
+
+    def vf_hold(self):
+        if self.vf_free > 0:
+            self.vf_free -= 1
+            return
+        link, st = self.vf_link, self.vf_link.lag_stats
+        if self.vf_key is None:
+            import nfc.llcp
+            towards = "A>B" if self.vf_end == "B" else "B>A"
+            self.vf_key = (towards, self.vf_sock.getsockname(), self.vf_sock.getpeername())
+            self.vf_rw = self.vf_sock.getsockopt(nfc.llcp.SO_RCVBUF)
+        t0 = time.monotonic()
+        idle = False
+        while True:
+            if link.symm_run >= LAG_SYMM:
+                idle = True
+                break
+            if time.monotonic() - t0 > LAG_CAP or not link.alive():
+                break
+            time.sleep(0.001)
+        out = link.lag_i.get(self.vf_key, 0) - self.vf_taken
+        if not idle:
+            st["lag_recv_released_by_cap"] = st.get("lag_recv_released_by_cap", 0) + 1
+        elif out >= self.vf_rw:
+            st["window_exhausted_before_recv"] = st.get("window_exhausted_before_recv", 0) + 1
+            st.setdefault("rw", set()).add(self.vf_rw)
+        else:
+            st["lag_recv_released_idle_window_not_full"] = st.get("lag_recv_released_idle_window_not_full", 0) + 1
+        st["max_out"] = max(st.get("max_out", 0), out)
+        self.vf_free = max(1, min(out, self.vf_rw)) - 1
 
 
 def other(end):
@@ -532,6 +721,11 @@ class Link:
         self.last_active = time.monotonic()
         self.servers = []
         self.history = set()        # octets of messages of finished transfers (stale detection)
+        self.unjudged = set()       # messages of operations that ended INCONCLUSIVE
+        self.book.link = self
+        self.lag = None             # lagging-receiver spec of the connection in progress (see LagSocket)
+        self.lag_i = {}             # (direction, dsap, ssap) -> I PDUs seen on the wire while a lag spec was active
+        self.lag_stats = {}
         K = classes()
 
         def before_start(tp):
@@ -540,7 +734,7 @@ class Link:
                     kw = dict(service_name=SVC_NAMES[i], recv_miu=s["recv_miu"], recv_buf=s["recv_buf"])
                     if s.get("max_len") is not None:
                         kw["max_acceptable_length"] = s["max_len"]
-                    srv = K["RecSnepServer"](llc, self.book, end, "snep%d" % i, **kw)
+                    srv = K["BadSnepServer" if s.get("bad") else "RecSnepServer"](llc, self.book, end, "snep%d" % i, **kw)
                     srv.daemon = True
                     srv.start()
                     self.servers.append(srv)
@@ -565,6 +759,14 @@ class Link:
             self.frames.append((direction, data))
             if data[:2] == b"\x00\x80":
                 self.agf_frames = getattr(self, "agf_frames", 0) + 1
+            if self.lag is not None:
+                try:
+                    for p in self.ref.flatten(self.ref.decode(data)):
+                        if p["t"] == "I":
+                            k = (direction, p["dsap"], p["ssap"])
+                            self.lag_i[k] = self.lag_i.get(k, 0) + 1
+                except self.ref.Reject:
+                    pass
 
     def start(self):
         ok = self.tp.start(timeout=10.0)
@@ -593,15 +795,25 @@ class Link:
 
     def quiesce(self):
         """True when the link is quiescent: alive, wire idle (SETTLE_SYMM SYMM frames) at two looks in a row with no
-        other frame in between, and at both looks every SNEP/handover server thread parked waiting for input.
+        other frame in between, at both looks at least one SNEP/handover server thread exists and every one is parked
+        waiting for input (untimed Condition.wait, not notified), none of them made progress between the looks, and the
+        heartbeat thread of this process was scheduled at least HB_MIN_TICKS times in between (threads do get the CPU).
         Bounded by looks, not by time; False = not established (the caller reports INCONCLUSIVE, never a verdict)"""
+        hb = heartbeat()
         for _ in range(QUIESCE_ROUNDS):
             if not self.alive():
                 return False
-            if not (self.settle() and server_threads_parked()):
+            t0 = hb.ticks
+            if not self.settle():
+                continue
+            p1, k1 = server_thread_state()
+            if not p1:
                 continue
             n = len(self.frames)
-            if self.settle() and server_threads_parked() and len(self.frames) == n and self.alive():
+            if not self.settle():
+                continue
+            p2, k2 = server_thread_state()
+            if p2 and k1 == k2 and len(self.frames) == n and self.alive() and hb.ticks - t0 >= HB_MIN_TICKS:
                 return True
         return False
 
@@ -852,9 +1064,33 @@ def gen_cfg(rng):
             s1["max_len"] = rng.randint(8, up - 7)            # a single fragment can already be too long
         else:
             s1["max_len"] = rng.randint(up, 4 * up)
-        cfg["snep"][e] = [s0, s1]
+        s2 = sock(cfg["miu"][e], 1984, 15)
+        s2.update(max_len=None, bad=True)                     # the non-compliant peer (BadSnepServer), not under test
+        cfg["snep"][e] = [s0, s1, s2]
         cfg["ho"][e] = sock(cfg["miu"][e], 1984, 15)
     return cfg
+
+
+def gen_bad(rng, cfg, end, mids):
+    """one Get towards the non-compliant server: its response says more octets than the client's acceptable length
+    ('over'), or more octets than it then sends ('short': the last 1..7 octets, a whole fragment or everything missing);
+    acceptable lengths and response sizes around the fragment size of the connection, so that the lie is in the first
+    fragment of a fragmented or in an unfragmented response"""
+    conn = {"proto": "snep", "end": end, "svc": 2, "implicit": False, "tuned": None, "bad": True}
+    if rng.random() < 0.5:
+        conn["tuned"] = {"miu": rng.choice([128, 129, 200, 248, rng.randint(128, 2175)]), "rw": rng.choice([1, 2, 15])}
+    _up, down = conn_mius(cfg, conn)
+    A = max(0, rng.choice([0, 8, 60, down - 7, down - 6, down - 5, 2 * down - 6, 2 * down, 1024, rng.randint(0, 3 * down)]))
+    if rng.random() < 0.5:
+        mode, cut = "over", 0
+        nr = feasible_ndef_size(A + rng.choice([1, 1, 1, 2, 3, 7, down, rng.randint(1, 3 * down)]))
+    else:
+        mode, A = "short", max(A, 8)
+        nr = feasible_ndef_size(rng.choice([A, A, A - 1, max(4, A // 2), rng.randint(4, A)]))
+        cut = min(nr, rng.choice([1, 1, 2, 7, down, nr]))
+    conn["acc"] = A
+    conn["ops"] = [{"op": "badget", "mode": mode, "nq": rng.randint(16, 60), "nr": nr, "cut": cut, "mid": next(mids), "rmid": next(mids)}]
+    return conn
 
 
 def gen_script(rng, cfg, nbatches, edges, mids):
@@ -874,7 +1110,9 @@ def gen_script(rng, cfg, nbatches, edges, mids):
         for _c in range(nconn):
             end = rng.choice("AB")
             r = rng.random()
-            if r < 0.62 * CHAIN_SHARE:
+            if len(cfg["snep"][other(end)]) > 2 and rng.random() < BAD_SHARE:
+                conn = gen_bad(rng, cfg, end, mids)
+            elif r < 0.62 * CHAIN_SHARE:
                 conn = gen_chain(rng, cfg, end, cedges, mids)
             elif r < 0.62 * CHAIN_SHARE + RB_SNEP_SHARE:
                 conn = gen_rb_snep(rng, cfg, end, rbe, mids)
@@ -940,9 +1178,32 @@ def gen_script(rng, cfg, nbatches, edges, mids):
             for conn in batch:
                 for op in conn["ops"]:
                     for k in ("n", "nq", "nr"):
-                        if k in op and op[k] < 16:
+                        if k in op and op[k] < 16 and op["op"] != "badget":
                             op[k] = 16 + op[k]
         script.append(batch)
+    # size 0 (the empty NDEF message) is forced into every link: a put request, a get request and a get response of 0
+    # octets on connections that are alone in their batch (ids cannot be embedded), half of them through the records
+    # APIs (put_records([]) / get_records([]) = the empty record list)
+    cands = [(conn, op) for batch in script if len(batch) == 1 for conn in batch if conn["proto"] == "snep"
+             and not (conn.get("chain") or conn.get("rb") or conn.get("bad")) for op in conn["ops"]]
+    rng.shuffle(cands)
+    done = set()
+    for conn, op in cands:
+        want = [w for w in (("n",) if op["op"] == "put" else ("nq", "nr")) if w not in done]
+        if not want:
+            continue
+        w = rng.choice(want)
+        done.add(w)
+        op[w] = 0
+        if rng.random() < 0.5:
+            op["api"] = "records"
+        if len(done) == 3:
+            break
+    for batch in script:
+        for conn in batch:
+            for op in conn["ops"]:
+                if op["op"] != "badget" and "api" not in op and rng.random() < RECORDS_SHARE:
+                    op["api"] = "records"
     return script
 
 
@@ -993,17 +1254,85 @@ def gen_seqwrap(rng, rw, mids):
     return cfg, script
 
 
+def gen_lag(rng, rw, kinds, mids):
+    """lagging-receiver class: one link whose receiving sockets all have MIU 128 and receive window `rw` (2..15); each
+    connection (alone on the link) carries one message of 17+rw .. 20+rw fragments towards a receiver whose recv() is
+    held back until the wire has gone idle (LagSocket): the sender runs into a full window again and again, also while
+    N(S) wraps.  kinds: 'put' (request -> lagging SNEP server), 'get' (response -> lagging SNEP client), 'hoq' (handover
+    request -> lagging handover server), 'hor' (select -> lagging handover client).  Oracle: the unchanged ones"""
+    cfg = {"miu": {e: rng.choice([128, 128, 200, 2175]) for e in "AB"}, "agf": {e: rng.random() < 0.5 for e in "AB"},
+           "lto": 2500, "switch": rng.choice([0.005, 0.001, 0.0001]), "snep": {}, "ho": {}}
+    for e in "AB":
+        cfg["snep"][e] = [{"recv_miu": 128, "recv_buf": rw, "max_len": None}, {"recv_miu": 128, "recv_buf": rw, "max_len": 8192}]
+        cfg["ho"][e] = {"recv_miu": 128, "recv_buf": rw}
+
+    def frags():
+        return rng.randint(17 + rw, 20 + rw) * 128 + rng.choice([-1, 0, 0, 1])
+
+    script = []
+    for kind in kinds:
+        n = frags()
+        holds = (n // 128 + 1) // rw + 2
+        if kind in ("put", "get"):
+            conn = {"proto": "snep", "end": rng.choice("AB"), "svc": rng.choice([0, 0, 1]), "implicit": False,
+                    "tuned": {"miu": 128, "rw": rw}, "acc": 1024}
+            if kind == "put":
+                conn["ops"] = [{"op": "put", "n": n - 6, "mid": next(mids)}]
+            else:
+                conn["acc"] = n - 6 + rng.choice([0, 1, 1000])
+                conn["ops"] = [{"op": "get", "nq": rng.choice([3, 20, 60]), "nr": n - 6, "mid": next(mids), "rmid": next(mids)}]
+        else:
+            small = rng.randint(16, 128)
+            conn = {"proto": "ho", "end": rng.choice("AB"), "miu": 128, "rw": rw,
+                    "ops": [{"op": "ho", "nq": n if kind == "hoq" else small, "nr": n if kind == "hor" else small,
+                             "mid": next(mids), "rmid": next(mids)}]}
+        conn["lag"] = {"side": "server" if kind in ("put", "hoq") else "client", "kind": kind}
+        conn["timeout"] = CALL_TIMEOUT + 0.5 * holds       # every hold costs two idle SYMM turns of real time
+        script.append([conn])
+    return cfg, script
+
+
 def materialize(conn):
     """octets of every message of a connection script (deterministic in sizes and ids)"""
+    ndef = _ndef()
     for op in conn["ops"]:
         if op["op"] == "put":
             op["_msg"] = ndef_exact_rb(op["n"], op["rb"], op["mid"]) if op.get("rb") else ndef_exact(op["n"], op["mid"])
         elif op["op"] == "get":
             op["_msg"] = ndef_exact_rb(op["nq"], op["rbq"], op["mid"]) if op.get("rbq") else ndef_exact(op["nq"], op["mid"])
             op["_resp"] = ndef_exact_rb(op["nr"], op["rbr"], op["rmid"]) if op.get("rbr") else ndef_exact(op["nr"], op["rmid"])
+        elif op["op"] == "badget":
+            # what the non-compliant server puts on the connection: a Success header whose length field says len(_resp),
+            # followed by all but the last `cut` octets of _resp
+            op["_msg"] = ndef_exact(op["nq"], op["mid"])
+            op["_resp"] = ndef_exact(op["nr"], op["rmid"])
+            op["_wire_resp"] = struct.pack(">BBL", 0x10, 0x81, len(op["_resp"])) + op["_resp"][:len(op["_resp"]) - op["cut"]]
         else:
             op["_msg"] = ho_message_rb("Hr", op["nq"], op["rbq"], op["mid"]) if op.get("rbq") else ho_message("Hr", op["nq"], op["mid"])
             op["_resp"] = ho_message_rb("Hs", op["nr"], op["rbr"], op["rmid"]) if op.get("rbr") else ho_message("Hs", op["nr"], op["rmid"])
+        if op.get("api") == "records":
+            # the records APIs: the application hands over / gets back ndef.Record lists; they stand for the octets only
+            # where the decoder the API uses round-trips them (checked here, otherwise the octets API is used)
+            try:
+                if op["op"] in ("put", "get"):
+                    recs = list(ndef.message_decoder(op["_msg"], known_types={}))
+                    ok = enc(recs) == op["_msg"]
+                    if op["op"] == "get":
+                        ok = ok and enc(list(ndef.message_decoder(op["_resp"]))) == op["_resp"]
+                        if ok and not recs:
+                            op["_empty_list"] = True           # get_records([]): "no request message" (see run_conn)
+                            op["_msg"] = b"\xd0\x00\x00"
+                elif op["op"] == "ho":
+                    recs = list(ndef.message_decoder(op["_msg"], "relax"))
+                    ok = enc(recs) == op["_msg"] and enc(list(ndef.message_decoder(op["_resp"], "relax"))) == op["_resp"]
+                else:
+                    ok = False
+            except Exception:
+                ok = False
+            if ok:
+                op["_records"] = recs
+            else:
+                op["api"] = "octets"
 
 
 def strip(script):
@@ -1014,6 +1343,10 @@ def strip(script):
 
 # ---------------------------------------------------------------------------------------------------------------
 # running the client side of one connection (helper thread)
+def conn_timeout(conn):
+    return conn.get("timeout", CALL_TIMEOUT)
+
+
 def run_conn(link, conn, res):
     from vf.core.rec import exc_sig
     K = classes()
@@ -1023,6 +1356,13 @@ def run_conn(link, conn, res):
     res["ops"] = []
     res["phase"] = "connect"
     cl = None
+    tmo = conn_timeout(conn)
+    lag = conn.get("lag")
+    if lag:
+        # lagging receiver (single-connection batch): the spec names the receiving side whose recv() is held back
+        link.lag_i.clear()
+        link.lag = {"side": lag["side"], "end": conn["end"] if lag["side"] == "client" else other(conn["end"]),
+                    "svc": "ho" if conn["proto"] == "ho" else "snep%d" % conn["svc"]}
     try:
         if conn["proto"] == "snep":
             if conn.get("tuned"):
@@ -1049,30 +1389,79 @@ def run_conn(link, conn, res):
             res["send_miu"] = cl.socket.getsockopt(nfc.llcp.SO_SNDMIU)
             res["recv_miu"] = cl.socket.getsockopt(nfc.llcp.SO_RCVMIU)
             res["sap"] = cl.socket.getsockname()
+        if lag and lag["side"] == "client" and cl.socket is not None:
+            cl.socket = LagSocket(cl.socket, link, conn["end"], "client", link.lag["svc"])
     except Exception as e:
         res["connect_exc"] = (exc_sig(e), repr(e))
+        link.lag = None
         return
+    # what the octets-level call underneath a records-API call returned (same client object, observation only)
+    seen = {}
+    if any(op.get("api") == "records" for op in conn["ops"]):
+        for name in ("get_octets", "recv_octets"):
+            inner = getattr(cl, name, None)
+            if inner is not None:
+                def spy(*a, _inner=inner, _name=name, **kw):
+                    seen[_name] = "raised"
+                    v = _inner(*a, **kw)
+                    seen[_name] = v
+                    return v
+                setattr(cl, name, spy)
     try:
         for i, op in enumerate(conn["ops"]):
             res["phase"] = "op%d:%s" % (i, op["op"])
             o = {"seq0": book.tick(), "f0": len(link.frames)}
             res["sap_now"] = None
             res["cur"] = (i, o)          # the call in progress (looked at when the thread blocks)
+            rec_api = op.get("api") == "records"
+            seen.clear()
             t0 = time.monotonic()
             try:
                 if op["op"] == "put":
-                    o["outcome"] = ("ret", cl.put_octets(op["_msg"], timeout=CALL_TIMEOUT))
+                    if rec_api:
+                        o["outcome"] = ("ret", cl.put_records(op["_records"], timeout=tmo))
+                    else:
+                        o["outcome"] = ("ret", cl.put_octets(op["_msg"], timeout=tmo))
                 elif op["op"] == "get":
                     with book.lock:
                         book.get_plan[op["_msg"]] = op["_resp"]
-                    v = cl.get_octets(op["_msg"], timeout=CALL_TIMEOUT)
+                        if op.get("_empty_list"):
+                            book.get_plan[b""] = op["_resp"]
+                    if rec_api:
+                        v = cl.get_records(op["_records"], timeout=tmo)
+                        if v is not None:
+                            v = enc(v)
+                        elif isinstance(seen.get("get_octets"), (bytes, bytearray)) and len(seen["get_octets"]) < 3:
+                            # get_records() has no record list for a message of less than 3 octets: the octets-level
+                            # call underneath (same client) tells an empty message from a failed call
+                            v = bytes(seen["get_octets"])
+                            o["records_none_for_short"] = True
+                    else:
+                        v = cl.get_octets(op["_msg"], timeout=tmo)
+                    o["outcome"] = ("ret", None if v is None else bytes(v))
+                elif op["op"] == "badget":
+                    with book.lock:
+                        book.bad_plan[op["_msg"]] = op["_wire_resp"]
+                    v = cl.get_octets(op["_msg"], timeout=BAD_TIMEOUT)
                     o["outcome"] = ("ret", None if v is None else bytes(v))
                 else:
                     with book.lock:
                         book.ho_plan[op["_msg"]] = op["_resp"]
-                    ok = cl.send_octets(op["_msg"])
+                    ok = cl.send_records(op["_records"]) if rec_api else cl.send_octets(op["_msg"])
                     o["sent_dt"] = time.monotonic() - t0
-                    v = cl.recv_octets(timeout=CALL_TIMEOUT) if ok else None
+                    v = None
+                    if ok and rec_api:
+                        try:
+                            recs = cl.recv_records(timeout=tmo)
+                            v = enc(recs) if recs else None
+                        except TypeError:
+                            # recv_records() formats its log line with hexlify(octets): raises when recv_octets() gave
+                            # up and returned None.  Not a statement about delivery - handled as "nothing received"
+                            if seen.get("recv_octets", "raised") is not None:
+                                raise
+                            o["recv_records_typeerror_after_none"] = True
+                    elif ok:
+                        v = cl.recv_octets(timeout=tmo)
                     o["outcome"] = ("ret", ok, None if v is None else bytes(v))
                     if v is None or bytes(v) != op["_resp"]:
                         o["cut"] = True      # workload control: the dialogue is out of step, do not go on with it
@@ -1081,7 +1470,14 @@ def run_conn(link, conn, res):
             except Exception as e:
                 o["outcome"] = ("exc", exc_sig(e), repr(e)[:200])
             o["dt"] = time.monotonic() - t0
-            if o["dt"] >= 0.9 * CALL_TIMEOUT:
+            if op.get("_empty_list"):
+                # get_records([]) stands for "no request message": nfcpy sends one empty record (D0 00 00) for it; an
+                # empty message (0 octets) would be just as faithful - the message of this operation is what arrived
+                with book.lock:
+                    arrived = [e["octets"] for e in book.entries if e["seq"] > o["seq0"] and e["layer"] == "raw" and e["kind"] == "get"]
+                if b"" in arrived and op["_msg"] not in arrived:
+                    op["_msg"] = b""
+            if o["dt"] >= 0.9 * tmo and op["op"] != "badget":
                 # the call (probably) gave up by its time-out: was anything still moving at that moment?  Closing the
                 # connection afterwards cuts a transfer that was merely slow - only a wire that was already idle with
                 # every server thread waiting for input lets the wire content speak about "never" (no clock involved)
@@ -1092,7 +1488,7 @@ def run_conn(link, conn, res):
             o["f1"] = len(link.frames)
             res["ops"].append(o)
             res["cur"] = None
-            if o["outcome"][0] == "exc" or o["dt"] >= 0.9 * CALL_TIMEOUT or o.get("cut"):
+            if o["outcome"][0] == "exc" or o["dt"] >= 0.9 * tmo or o.get("cut") or op["op"] == "badget":
                 res["cut"] = True        # state of the connection is unknown after a time-out: do not go on
                 break
         res["phase"] = "close"
@@ -1101,6 +1497,7 @@ def run_conn(link, conn, res):
             cl.close()
         except Exception as e:
             res["close_exc"] = repr(e)
+        link.lag = None
         res["phase"] = "done"
 
 
@@ -1109,12 +1506,32 @@ def thread_stack(th):
     return "".join(traceback.format_stack(fr)[-8:]) if fr is not None else "?"
 
 
+_HB = []
+HB_MIN_TICKS = 8            # heartbeat ticks (2 ms sleeps of a thread of this process) required between the two looks
+
+
+def heartbeat():
+    """vf.core.watch.Heartbeat of this process: evidence that threads get scheduled (a starved runnable thread on a loaded
+    machine must not be mistaken for a blocked one); only ever used to withhold a verdict"""
+    if not _HB:
+        from vf.core import watch
+        _HB.append(watch.Heartbeat().start())
+    return _HB[0]
+
+
+def _untimed_unnotified_wait(frame):
+    """vf.core.watch.classify: the thread sits in threading.Condition.wait(timeout=None) called from nfc code and nobody
+    has notified it yet (a notified waiter - its waiter lock already released - is about to run: not parked)"""
+    from vf.core import watch
+    info = watch.classify(frame)
+    return bool(info.kind == "cond-wait" and info.timeout is None and info.notified is not True and info.in_nfc)
+
+
 def parked_without_timeout(th):
-    """the thread is inside threading.Condition.wait(timeout=None)"""
+    """the thread is inside threading.Condition.wait(timeout=None) and has not been notified"""
     fr = sys._current_frames().get(th.ident)
     try:
-        return bool(fr is not None and fr.f_code.co_filename.replace("\\", "/").endswith("/threading.py")
-                    and fr.f_code.co_name == "wait" and "timeout" in fr.f_locals and fr.f_locals["timeout"] is None)
+        return bool(fr is not None and _untimed_unnotified_wait(fr))
     except Exception:
         return False
 
@@ -1122,12 +1539,18 @@ def parked_without_timeout(th):
 _SERVER_FILES = ("/nfc/snep/server.py", "/nfc/handover/server.py")
 
 
-def server_threads_parked():
-    """True when every thread that is inside the SNEP / handover server code is parked in Condition.wait (it waits
-    for the LLC: accept(), poll(), recv(), send() with a full window).  Looks at file names of the frames only.
+def server_thread_state():
+    """(parked, key): parked is True when at least one thread is inside the SNEP / handover server code and every such
+    thread is parked in an untimed Condition.wait that nobody has notified yet (it waits for the LLC: accept(), poll(),
+    recv(), send() with a full window).  No server thread at all -> False: the guard has nothing to stand on.
+    key = progress indicator of those threads (vf.core.watch.thread_key: innermost frame identity and instruction
+    offset); two looks with the same key = zero progress in between.  Looks at frames only.
     Used as a guard that can only withhold a 'never delivered' verdict."""
+    from vf.core import watch
     me = threading.get_ident()
-    for tid, inner in sys._current_frames().items():
+    frames = sys._current_frames()
+    key = {}
+    for tid, inner in frames.items():
         if tid == me:
             continue
         f = inner
@@ -1137,9 +1560,19 @@ def server_threads_parked():
             f = f.f_back
         if f is None:
             continue                # not a server thread
-        if not (inner.f_code.co_filename.replace("\\", "/").endswith("/threading.py") and inner.f_code.co_name == "wait"):
-            return False
-    return True
+        try:
+            if not _untimed_unnotified_wait(inner):
+                return False, None
+        except Exception:
+            return False, None
+        key[tid] = watch.thread_key(tid, frames)
+    if not key:
+        return False, None
+    return True, key
+
+
+def server_threads_parked():
+    return server_thread_state()[0]
 
 
 # ---------------------------------------------------------------------------------------------------------------
@@ -1220,6 +1653,21 @@ class Evaluator:
         if len(match) == 1:
             e = match[0]
             ao = e.get("app_octets")
+            if ao is None and layer == "raw":
+                # the complete request reached process_snep_request: the application boundary is process_put_request /
+                # process_get_request, which must have been called with it (looked at once the server call has ended)
+                if "resp" not in e:
+                    link.settle()
+                if "resp" not in e:
+                    R.inconc("%s %s: the server is still inside process_snep_request" % (proto, kind))
+                    return False
+                ao = e.get("app_octets")
+                if ao is None:
+                    self.viol("%s/%s/request-not-given-to-application" % (proto, kind),
+                              "the complete %d octet %s request reached the server (answered with code %02Xh) but process_%s_request "
+                              "was never called with the message; client outcome %s"
+                              % (len(msg), kind, e["resp"][1] if len(e["resp"]) > 1 else 0, kind, outcome_tag(o["outcome"])), conn, opi)
+                    return False
             if ao is not None and ao != msg:
                 self.viol("%s/%s/app-octets-differ" % (proto, kind),
                           "records given to the application encode to %d octets, the message has %d" % (len(ao), len(msg)), conn, opi)
@@ -1268,8 +1716,16 @@ class Evaluator:
                           % (fate["need"], fate["pdus"], "all acknowledged" if fate["acked"] else "not acknowledged",
                              fate["down"], len(msg), kind), conn, opi)
             return False
-        if not link.alive() or not link.settle():
-            R.inconc("%s %s: message missing at the peer application but the link is not alive/idle" % (proto, kind))
+        if not link.alive() or not link.quiesce():
+            R.inconc("%s %s: message missing at the peer application but the link is not alive/quiescent" % (proto, kind))
+            return False
+        cand = self.entries(srv_end, svc, layer, o["seq0"])
+        late = [e for e in cand if e["octets"] == msg and e["kind"] == kind]
+        if late:
+            for e in late:
+                e["claimed"] = True
+            R.count("late_delivery")
+            R.inconc("%s %s: the message reached the peer application only while the link was being watched for quiescence" % (proto, kind))
             return False
         sent = self.wire_bytes(conn, o)
         self.viol(pfx + "/lost-after-success" + self.never_answered(conn, opi, self.request_fate(conn, conn["ops"][opi], o)),
@@ -1282,6 +1738,8 @@ class Evaluator:
         the message of that call (e.g. an earlier message again)?  That is a verdict independent of the blocking."""
         opi, o = res["cur"]
         op = conn["ops"][opi]
+        if op["op"] == "badget":
+            return
         proto = "snep" if conn["proto"] == "snep" else "handover"
         svc, layer = ("ho", "app") if proto == "handover" else ("snep%d" % conn["svc"], "raw")
         kind = "ho" if proto == "handover" else op["op"]
@@ -1310,6 +1768,8 @@ class Evaluator:
         opi, o = cur
         op = conn["ops"][opi]
         link = self.link
+        if op["op"] == "badget":
+            return                      # the peer is the non-compliant server: nothing has to be delivered
         if not op_expects_delivery(self.cfg, conn, op) and not op_expect_refusal(self.cfg, conn, op, strict=True):
             return                      # (get request in the zone the statement does not decide)
         if not (parked_without_timeout(th) and link.quiesce() and parked_without_timeout(th)) or res.get("cur") is not cur:
@@ -1376,6 +1836,16 @@ class Evaluator:
             elif d != d_up and (sap is None or p["dsap"] == sap):
                 out.append((False, p))
         return out
+
+    def conn_pdu_types(self, conn, o):
+        """types of the PDUs the server's side sent on this connection since the call began; None = not attributable"""
+        res = conn.get("_res") or {}
+        sap = res.get("sap") or o.get("sap")
+        if not conn.get("_single") and sap is None:
+            return None
+        d_up = "A>B" if conn["end"] == "A" else "B>A"
+        return set(p["t"] for d, p in self.link.leaves(o["f0"], len(self.link.frames))
+                   if d != d_up and (sap is None or p.get("dsap") == sap))
 
     def request_fate(self, conn, op, o):
         """what the wire shows about the request of one call: did all its octets cross, in how many I PDUs, were they
@@ -1479,6 +1949,11 @@ class Evaluator:
         return True
 
     def wire_response_incomplete(self, conn, opi, o, resp, sig):
+        if (conn.get("lag") or {}).get("side") == "client":
+            # lagging-receiver class: the harness itself held the client's recv() back; a response that stopped at the
+            # full window when the client's time-out ran out is explained by that, not by the server
+            self.R.count("timed_out_calls_of_a_lagging_client_not_judged_on_the_wire")
+            return False
         if not o.get("idle1"):           # the transfer was still moving when the client gave up (slow run): no verdict
             self.R.count("timed_out_calls_not_idle_at_give_up")
             return False
@@ -1571,6 +2046,8 @@ def evaluate_batch(ev, batch, results):
                 oversize_seen = True
             if ok is True and opi == len(conn["ops"]) - 1 and single:
                 note_connection_totals(R, cfg, conn, res)
+            if ok is False and not conn.get("_violated"):
+                link.unjudged.add(op["_msg"])      # ended INCONCLUSIVE: a late delivery of this message proves nothing
             if ok is False:
                 # nothing later on this connection is judged: its application calls are consequences
                 R.count("conn_rest_skipped_after_violation", len(res["ops"]) - opi - 1)
@@ -1661,7 +2138,7 @@ def note_record_boundaries(R, name, msg, hdr, miu):
 def eval_op(ev, conn, res, opi, op, o, srv_end, batch_msgs, single):
     link, R, cfg = ev.link, ev.R, ev.cfg
     out = o["outcome"]
-    timed_out = o["dt"] >= 0.9 * CALL_TIMEOUT
+    timed_out = o["dt"] >= 0.9 * conn_timeout(conn)
     up_miu, down_miu = res.get("send_miu"), res.get("recv_miu")
     if up_miu is None:
         up_miu, down_miu = conn_mius(cfg, conn)
@@ -1694,6 +2171,36 @@ def eval_op(ev, conn, res, opi, op, o, srv_end, batch_msgs, single):
         nup = ndown = None
         codes = None
 
+    def checked(name, *sizes):
+        """a transfer was verified end to end (counter `name`): what else it stands for"""
+        R.count(name)
+        api = op.get("api", "octets")
+        R.count("api_%s_checked/%s" % (api, name.replace("_checked", "")))
+        if api == "records" and op.get("_records") == []:
+            R.count("records_api_empty_list_checked")
+            R.seen("records_api_empty_list_kind", op["op"])
+        if op.get("_empty_list"):
+            R.seen("get_records_empty_list_arrived_as", "%d octets" % len(op["_msg"]))
+        if o.get("records_none_for_short"):
+            R.count("get_records_returned_None_for_a_message_shorter_than_3_octets")
+        for what, n in sizes:
+            if n == 0:
+                R.count("zero_size_checked")
+                R.seen("zero_size_kind", "%s/%s" % (what, api))
+            elif n == 3:
+                R.seen("size_3_kind", "%s/%s" % (what, api))
+        if link.kind == "fullstack":
+            R.count("fullstack_" + name)
+            R.seen("fullstack_client_role", role)
+            dep = cfg.get("dep", {})
+            R.seen("fullstack_checked_lri_lrt", "%s/%s" % (dep.get("lri"), dep.get("lrt")))
+            R.seen("fullstack_checked_acm", bool(dep.get("acm")))
+            if conn.get("depaim"):
+                R.count("fullstack_dep_aimed_checked")
+        if conn.get("lag"):
+            R.count("lagging_transfers_checked")
+            R.seen("lagging_kind", "%s-%s-%s" % (conn["proto"], op["op"], conn["lag"]["side"]))
+
     def edge_note(name, n, hdr, miu):
         for h in (0, hdr):
             d = (n + h) % miu
@@ -1724,7 +2231,7 @@ def eval_op(ev, conn, res, opi, op, o, srv_end, batch_msgs, single):
                 ev.viol("snep/put/refused-within-limit/%s" % outcome_tag(out),
                         "put of %d octets (server accepts %d) -> %s%s" % (n, L, outcome_tag(out), "" if r is None else " although the server application got the message"), conn, opi)
                 return False
-            R.count("snep_put_checked")
+            checked("snep_put_checked", ("put", n))
             op["_full"] = True
             edge_note("put", n, 6, up_miu)
             note_record_boundaries(R, "snep_put", msg, 6, up_miu)
@@ -1771,6 +2278,35 @@ def eval_op(ev, conn, res, opi, op, o, srv_end, batch_msgs, single):
         R.seen("oversize_put_outcome", outcome_tag(out))
         if n + 6 > up_miu:
             R.count("oversize_put_fragmented")
+        return True
+
+    # ------------------------------------------------------------------------------- SNEP get, non-compliant server
+    if op["op"] == "badget":
+        q, A, mode = op["_msg"], conn["acc"], op["mode"]
+        declared, sent = op["nr"], op["nr"] - op["cut"]
+        R.case(("badget", mode, len(q), declared, op["cut"], A, down_miu, role, agf, declared + 6 > down_miu, bool(conn.get("tuned"))),
+               nontrivial=any(b["octets"] == q for b in link.book.bad))
+        if not any(b["octets"] == q and b["acc"] == A for b in link.book.bad):
+            R.count("badget_server_not_consulted")
+            if not link.alive():
+                R.inconc("get from the non-compliant server on a dead link")
+                return False
+            return None
+        name = "overlong-response" if mode == "over" else "short-response"
+        if out[0] == "ret" and out[1] is not None:
+            got = out[1]
+            part = "delivered" if got == op["_resp"] else "delivered-partial"
+            ev.viol("snep/get/%s/%s" % (name, part),
+                    "the server answered a get (acceptable length %d) with a response whose length field says %d octets and sent %d "
+                    "of them: the client returned %d octets instead of None / SnepError" % (A, declared, sent, len(got)), conn, opi)
+            return False
+        R.count("client_%s_refused" % name.replace("-", "_"))
+        R.seen("client_%s_outcome" % name.replace("-", "_"), outcome_tag(out))
+        R.seen("client_%s_fragmented" % name.replace("-", "_"), declared + 6 > down_miu)
+        if mode == "over":
+            R.seen("client_overlong_relation", declared - A if declared - A <= 8 else "+far")
+        else:
+            R.seen("client_short_response_missing_octets", op["cut"] if op["cut"] <= 8 else "+far")
         return True
 
     # ------------------------------------------------------------------------------------------- SNEP get
@@ -1827,7 +2363,7 @@ def eval_op(ev, conn, res, opi, op, o, srv_end, batch_msgs, single):
             return False
         if nr <= A:
             if out[0] == "ret" and out[1] == rsp:
-                R.count("snep_get_checked")
+                checked("snep_get_checked", ("get_request", nq if not op.get("_empty_list") else 0), ("get_response", nr))
                 op["_full"] = True
                 edge_note("get_request", nq, 10, up_miu)
                 edge_note("get_response", nr, 6, down_miu)
@@ -1891,7 +2427,14 @@ def eval_op(ev, conn, res, opi, op, o, srv_end, batch_msgs, single):
         if not link.alive():
             R.inconc("handover send_octets failed on a dead link")
             return False
-        ev.viol("handover/request/send-failed", "send_octets returned %r on a live connection" % (sent_ok,), conn, opi)
+        # what the wire shows about it: a Frame Reject from the server's side of the connection, and whether that side
+        # ever sent an I / RR / RNR PDU on it (never + first message of the connection = lost at connection set-up)
+        pdus = ev.conn_pdu_types(conn, o)
+        frmr = pdus is not None and "FRMR" in pdus
+        ev.viol("handover/request/send-failed" + ("/frame-rejected" if frmr else "")
+                + ev.never_answered(conn, opi, ev.request_fate(conn, op, o)),
+                "send_octets returned %r on a live connection%s" % (sent_ok, " (the server's side answered with a Frame Reject PDU)"
+                                                                     if frmr else ""), conn, opi)
         return False
     r = ev.delivery("handover", "ho", conn, opi, o, srv_end, "ho", "app", q, batch_msgs, True, timed_out and got is None)
     if r is not True:
@@ -1904,7 +2447,7 @@ def eval_op(ev, conn, res, opi, op, o, srv_end, batch_msgs, single):
     if nq > up_miu:
         R.count("fragmented_requests")
     if got == rsp:
-        R.count("ho_response_checked")
+        checked("ho_response_checked")
         edge_note("ho_response", nr, 0, down_miu)
         note_record_boundaries(R, "select", rsp, 0, down_miu)
         if nr > down_miu:
@@ -1933,6 +2476,9 @@ def leftovers(ev, final=False):
             continue
         e["claimed"] = True
         proto = "handover" if e["svc"] == "ho" else "snep"
+        if e["octets"] in link.unjudged:
+            ev.R.count("late_delivery_of_an_inconclusive_operation")
+            continue
         how = "stale-redelivery" if e["octets"] in link.history else "unknown-octets"
         if how == "stale-redelivery" and e["tid"] in ev.stale_tids:
             ev.R.count("further_stale_redeliveries_by_a_reported_server_thread")
@@ -1958,7 +2504,8 @@ class Budget:
 def wait_clients(link, threads, results, batch):
     """join the client threads; a thread counts as blocked when it is still inside a call although the wire has
     been idle (SYMM only) for longer than any time-out the call could be waiting on (close() waits on none)."""
-    cap = time.monotonic() + 20.0 + sum(2 * CALL_TIMEOUT + 2 for conn in batch for _ in conn["ops"])
+    cap = time.monotonic() + 20.0 + sum(2 * conn_timeout(conn) + 2 for conn in batch for _ in conn["ops"])
+    longest = max(conn_timeout(conn) for conn in batch)
     while True:
         for t in threads:
             t.join(0.02)
@@ -1967,7 +2514,7 @@ def wait_clients(link, threads, results, batch):
         waiting = [res for t, res in zip(threads, results) if t.is_alive()]
         if not waiting:
             return True
-        if idle > CALL_TIMEOUT + 1.5 or now > cap:
+        if idle > longest + 1.5 or now > cap:
             return False
         if idle > 1.5 and all(res.get("phase") == "close" for res in waiting):
             return False
@@ -2034,6 +2581,10 @@ def run_link(cfg, script, R, budget=None, factory=None):
                     R.inconc("link did not come up in 4 attempts: %s" % diag)
                     return nviol
                 R.count("links" if link.kind == "pipe" else "fullstack_links")
+                if link.kind == "fullstack":
+                    dep = cfg.get("dep", {})
+                    for k in ("lri", "lrt", "brs", "acm"):
+                        R.seen("fullstack_link_" + k, dep.get(k) if k != "acm" else bool(dep.get(k)))
                 R.seen("link_miu", "%d/%d" % (cfg["miu"]["A"], cfg["miu"]["B"]))
                 R.seen("aggregation", "%d%d" % (cfg["agf"]["A"], cfg["agf"]["B"]))
             ev = Evaluator(link, R, cfg, strip(script[first:bi + 1]))
@@ -2094,9 +2645,24 @@ def run_link(cfg, script, R, budget=None, factory=None):
                              % (res.get("phase"), proto, link.alive(), time.monotonic() - link.last_active, stack[-700:],
                                 socket_states(link)))
                     _debug_dump(ev.case, conn, res)
-            budget.slow += sum(1 for res in results for o in res.get("ops", []) if o["dt"] >= 0.9 * CALL_TIMEOUT)
-            if not stuck and (bi == len(script) - 1 or ev.nviol):
-                link.settle(2.0)
+            budget.slow += sum(1 for conn, res in zip(batch, results) for op, o in zip(conn["ops"], res.get("ops", []))
+                               if o["dt"] >= 0.9 * conn_timeout(conn) and op["op"] != "badget")
+            if link.lag_stats:
+                st = link.lag_stats
+                for k, v in st.items():
+                    if k == "rw":
+                        for x in v:
+                            R.seen("window_exhausted_receive_window", x)
+                    elif k == "max_out":
+                        R.max("lag_max_outstanding_i_pdus_at_release", v)
+                    else:
+                        R.count(k, v)
+                link.lag_stats = {}
+            if not stuck:
+                # application calls nobody asked for (late duplicates): looked for after every batch; the wire is
+                # given time to go idle first where that is the last chance on this link
+                if bi == len(script) - 1 or ev.nviol:
+                    link.settle(2.0)
                 leftovers(ev)
             nviol += ev.nviol
             if link.book.thread_exc:
@@ -2194,6 +2760,7 @@ def run(desc, R, rng):
     budget = Budget(desc.get("slow_limit", 8))
     if desc.get("kind", "pipe") == "pipe":
         run_seqwrap(desc, R, random.Random(rng.getrandbits(64)))
+        run_lag(desc, R, random.Random(rng.getrandbits(64)))
         edges = Edges(rng, desc.get("maxk", 3))
         for li in range(desc["links"]):
             cfg = gen_cfg(rng)
@@ -2207,6 +2774,26 @@ def run(desc, R, rng):
         finish_links(budget, R)
     if desc.get("fullstack"):
         run_fullstack(desc, R, rng)
+
+
+LAG_KINDS = ("put", "get", "hoq", "hor")
+
+
+def run_lag(desc, R, rng):
+    """the lagging-receiver class (gen_lag), with a budget of its own"""
+    budget = Budget(slow_limit=3)
+    sh = int(desc.get("shard", 0))
+    for rnd in range(desc.get("lag_rounds", 0)):
+        rw = LAG_RWS[(sh * 3 + rnd * 5 + int(desc.get("seed", 0))) % len(LAG_RWS)]
+        n = desc.get("lag_kinds", 2)
+        kinds = [LAG_KINDS[(sh + rnd + j) % 4] for j in range(n)]
+        cfg, script = gen_lag(rng, rw, kinds, mid_counter(1))
+        run_link(cfg, script, R, budget)
+        R.count("lag_links")
+        if budget.exhausted():
+            R.count("lag_stopped_early_after_blocked_or_timed_out_calls")
+            break
+    finish_links(budget, R)
 
 
 def run_seqwrap(desc, R, rng):
@@ -2255,11 +2842,18 @@ class StackLink(Link):
         self.last_active = time.monotonic()
         self.servers = {"A": [], "B": []}
         self.history = set()
+        self.unjudged = set()
+        self.book.link = self
+        self.lag = None
+        self.lag_i = {}
+        self.lag_stats = {}
         self.llcs = {}
         self.stop_flag = False
         self.result = None
         self.radio = {"frames": 0, "dep_inf": 0, "dep_chained": 0, "dep_ack": 0, "dep_atn_to": 0, "other": 0, "max_len": 0}
         self.brty = set()
+        self.chain = {"i2t": [], "t2i": []}
+        self.chain_lens = set()
         self.net = fakenet.FakeNet(clock="real", keep_frames=False)
         self.net.observers.append(self._radio)
         self.thread = None
@@ -2284,6 +2878,21 @@ class StackLink(Link):
                 r["dep_inf"] += 1
                 if pfb & 0x10:
                     r["dep_chained"] += 1
+                # chains per direction (DEP_REQ = initiator -> target): the packet numbers of the information frames of
+                # one chained LLCP frame; a chain whose PNI steps from 3 to 0 is the modulo-4 boundary inside a chain
+                d = "i2t" if b[1] == 0xD4 else "t2i"
+                ch = self.chain[d]
+                pni = pfb & 0x03
+                if not ch or ch[-1] != pni:             # (a retransmission repeats the number)
+                    ch.append(pni)
+                if not pfb & 0x10:
+                    if len(ch) > 1:
+                        r["chain_max_" + d] = max(r.get("chain_max_" + d, 0), len(ch))
+                        r["chains_" + d] = r.get("chains_" + d, 0) + 1
+                        self.chain_lens.add((d, len(ch) if len(ch) < 8 else 8))
+                        if any(x == 3 and y == 0 for x, y in zip(ch, ch[1:])):
+                            r["chain_pni_wrap_" + d] = r.get("chain_pni_wrap_" + d, 0) + 1
+                    del ch[:]
             elif pfb & 0xE0 == 0x40:
                 r["dep_ack"] += 1
             else:
@@ -2300,7 +2909,7 @@ class StackLink(Link):
                 kw = dict(service_name=SVC_NAMES[i], recv_miu=sv["recv_miu"], recv_buf=sv["recv_buf"])
                 if sv.get("max_len") is not None:
                     kw["max_acceptable_length"] = sv["max_len"]
-                srv = K["RecSnepServer"](llc, self.book, end, "snep%d" % i, **kw)
+                srv = K["BadSnepServer" if sv.get("bad") else "RecSnepServer"](llc, self.book, end, "snep%d" % i, **kw)
                 srv.daemon = True
                 self.servers[end].append(srv)
             h = cfg["ho"][end]
@@ -2400,10 +3009,14 @@ class StackLink(Link):
         for k, v in self.radio.items():
             if k == "max_len":
                 R.max("radio_frame_octets", v)
+            elif k.startswith("chain_max_"):
+                R.max("radio_dep_" + k, v)
             else:
-                R.count("radio_" + k, v)
+                R.count("radio_" + (k if not k.startswith("chain") else "dep_" + k), v)
         for b in self.brty:
             R.seen("radio_brty", b)
+        for d, n in self.chain_lens:
+            R.seen("radio_dep_chain_frames_" + d, n)
         r = self.result
         if r is not None and (r.exc_cb["i"] or r.exc_cb["t"]):
             R.inconc("harness callback failed in the full-stack run: %r" % (r.exc_cb,))
@@ -2417,12 +3030,81 @@ def gen_stack_cfg(rng):
     return cfg
 
 
+DEP_LR = (64, 128, 192, 254)       # NFC-DEP length reduction values: maximum frame length (3 octets of it are header)
+
+
+def gen_depaim(rng, li, mids):
+    """complete-stack link aimed at the NFC-DEP frame boundaries: link and socket MIUs large enough that one LLCP I PDU
+    is carried by a chain of 1..6 NFC-DEP frames; LRi / LRt 0..3.  A SNEP connection (put request and get response, both
+    unfragmented at SNEP level) and a handover dialogue whose I PDUs (3 octets LLCP header + SNEP header + message) are
+    k * F + d octets long, F = LR - 3 = the payload of one NFC-DEP frame of that direction, d = -2..+2, one message per
+    direction with k = 5 or 6 (a chain of five frames passes the packet number wrap 3 -> 0 whatever number it starts
+    with) and others with k = 1..4.  The sizes are only aimed with this model; what the radio carried is counted from
+    the frames (radio_dep_chain_*)"""
+    cfg = gen_cfg(rng)
+    cfg["miu"] = {e: rng.choice([1600, 2000, 2175]) for e in "AB"}
+    cfg["agf"] = {e: rng.random() < 0.3 for e in "AB"}
+    for e in "AB":
+        for sv in cfg["snep"][e]:
+            sv.update(recv_miu=1984, recv_buf=rng.choice([1, 2, 15]))
+        cfg["snep"][e][1]["max_len"] = 8192
+        cfg["ho"][e].update(recv_miu=1984, recv_buf=rng.choice([1, 2, 15]))
+    lri, lrt = (li + rng.randrange(2) * 2) % 4, rng.randrange(4)
+    cfg["dep"] = {"brs": rng.randrange(3), "lri": lri, "lrt": lrt, "acm": rng.random() < 0.7, "rwt": 12}
+    cfg["switch"] = 0.005
+    f = {"i2t": DEP_LR[lrt] - 3, "t2i": DEP_LR[lri] - 3}
+
+    def size(direction, k, hdr, floor):
+        return max(floor, k * f[direction] + rng.choice([-2, -1, 0, 0, 1, 2]) - 3 - hdr)
+
+    script = []
+    end = rng.choice("AB")
+    up, down = ("i2t", "t2i") if end == "A" else ("t2i", "i2t")
+    ks = [rng.choice([5, 6]), rng.randint(1, 4)]
+    conn = {"proto": "snep", "end": end, "svc": 0, "implicit": False, "tuned": {"miu": 1984, "rw": rng.choice([1, 2, 15])},
+            "depaim": True, "ops": []}
+    for k in ks:
+        conn["ops"].append({"op": "put", "n": feasible_ndef_size(size(up, k, 6, 0)), "mid": next(mids)})
+    rng.shuffle(ks)
+    for k in ks:
+        conn["ops"].append({"op": "get", "nq": rng.choice([3, 20, 40]), "nr": feasible_ndef_size(size(down, k, 6, 0)),
+                            "mid": next(mids), "rmid": next(mids)})
+    rng.shuffle(conn["ops"])
+    conn["acc"] = max(op.get("nr", 0) for op in conn["ops"]) + rng.choice([0, 1, 1000])
+    script.append([conn])
+    end = other(end) if rng.random() < 0.7 else end
+    up, down = ("i2t", "t2i") if end == "A" else ("t2i", "i2t")
+    script.append([{"proto": "ho", "end": end, "miu": 1984, "rw": rng.choice([1, 2, 15]), "depaim": True,
+                    "ops": [{"op": "ho", "nq": size(up, rng.choice([5, 6]), 0, 16), "nr": size(down, rng.choice([5, 6]), 0, 16),
+                             "mid": next(mids), "rmid": next(mids)}]}])
+    return cfg, script
+
+
 def run_fullstack(desc, R, rng):
     if not fullstack_available():
         R.count("fullstack_skipped_no_fakenet")
         return
     budget = Budget(desc.get("slow_limit", 8))
     edges = Edges(rng, desc.get("maxk", 3))
+    for li in range(desc.get("fullstack_depaim", 0)):
+        cfg, script = gen_depaim(rng, li + int(desc.get("shard", 0)), mid_counter(1))
+        run_link(cfg, script, R, budget, factory=StackLink)
+        finish_links(budget, R)
+        if budget.exhausted():
+            R.count("shard_stopped_early_after_blocked_or_timed_out_calls")
+            return
+    for li in range(desc.get("fullstack_lag", 0)):          # the lagging-receiver class over the complete stack
+        sh = int(desc.get("shard", 0))
+        rw = LAG_RWS[(sh * 5 + li * 3 + int(desc.get("seed", 0))) % len(LAG_RWS)]
+        cfg, script = gen_lag(rng, rw, [LAG_KINDS[(sh + li + j) % 4] for j in range(2)], mid_counter(1))
+        cfg["dep"] = {"brs": rng.randrange(3), "lri": rng.randrange(4), "lrt": rng.randrange(4), "acm": rng.random() < 0.7, "rwt": 12}
+        cfg["switch"] = 0.005
+        run_link(cfg, script, R, budget, factory=StackLink)
+        R.count("fullstack_lag_links")
+        finish_links(budget, R)
+        if budget.exhausted():
+            R.count("shard_stopped_early_after_blocked_or_timed_out_calls")
+            return
     for li in range(desc["fullstack"]):
         cfg = gen_stack_cfg(rng)
         script = gen_script(rng, cfg, desc.get("fullstack_batches", 3), edges, mid_counter(1))
